@@ -144,6 +144,8 @@ impl<'ast, 'psess, 'c> ModResolver<'ast, 'psess> {
                 Cow::Borrowed(&krate.attrs),
             ),
         );
+        #[cfg(rustfmt_verif)]
+        crate::verif::ev_resolved(self.file_map.keys());
         Ok(self.file_map)
     }
 
